@@ -136,8 +136,8 @@ fn structural(r: &mut Run, n: usize) -> Result<(), MachineryError> {
 
 fn run(r: &mut Run) -> Result<(), MachineryError> {
     let t = r.tier;
-    roundtrip(r, "C15/roundtrip(all-indent-pairs)", t.pick(3, 4), INDENTS)?;
-    roundtrip(r, "C15/roundtrip(longer)", t.pick(4, 5), &["", "> ", "  ", "//"])?;
-    structural(r, t.pick(6, 8))?;
+    roundtrip(r, "C15/roundtrip(all-indent-pairs)", t.pick(3, 5), INDENTS)?;
+    roundtrip(r, "C15/roundtrip(longer)", t.pick(4, 6), &["", "> ", "  ", "//"])?;
+    structural(r, t.pick(7, 9))?;
     Ok(())
 }
